@@ -99,6 +99,7 @@ class Checker:
         self.functions = []
         self.engines = {}
         self.vacuity = []
+        self.deferred = []
         for g in groups:
             w = g.world()
             w['__repo__'] = self.repo            # lemmas generated from the source text read THIS tree
@@ -107,7 +108,13 @@ class Checker:
             for c in g.contracts:
                 if self.prop not in c.props or (c.inline and not c.ensures):
                     continue
-                obs = eng.verify(c)
+                try:
+                    obs = eng.verify(c)
+                except Unsupported as err:
+                    # this function cannot be decided on this tree; the other contracts are still checked, so that a
+                    # violation elsewhere is reported as a violation - without one the verdict is UNDECIDED (exit 3)
+                    self.deferred.append((c.label, str(err)))
+                    continue
                 node = eng.fn
                 self.functions.append({'function': c.key, 'variant': c.variant, 'source_sha': fn_hash(node),
                                        'lines': [node.lineno, node.end_lineno], 'obligations': len(obs),
@@ -283,10 +290,18 @@ class Checker:
             return self.undecided('back ends disagree (z3 unsat, cvc5 sat) on ' + ', '.join(disagree[:3]))
         violations = self.triage(failed) if failed else []
         violations += self.finish_bounded(bounded_procs)
+        if self.deferred:
+            reason = '; '.join(f'{lab}: {why}' for lab, why in self.deferred[:3])
+            if not violations:
+                return self.undecided(reason)
+            self.say(f'NOTE: not decided on this tree (reported next to the violations above): {reason[:400]}')
         try:
             known = self.known_findings()
         except Unsupported as err:
-            return self.undecided(str(err))
+            if not violations:
+                return self.undecided(str(err))
+            self.say(f'NOTE: {str(err)[:300]}')
+            known = []
         if not violations and not getattr(self, 'no_evidence', False):
             try:
                 cc = self.crosscheck(4 if self.tier == 'quick' else 60)
